@@ -98,3 +98,53 @@ def fmt_table(variables: list[str], table: dict[tuple[bool, ...], tuple[bool, bo
     for vals, (may, must) in sorted(table.items()):
         rows.append(",".join(f"{v}={'T' if b else 'F'}" for v, b in zip(variables, vals)) + f"->{'must' if must else 'may' if may else 'no'}")
     return " ".join(rows)
+
+
+def _strip_bool(e: ast.expr) -> ast.expr:
+    while isinstance(e, ast.Call) and isinstance(e.func, ast.Name) and e.func.id == "bool" and len(e.args) == 1:
+        e = e.args[0]
+    return e
+
+
+def eval_bool_expr(e: ast.expr, assignment: dict[str, bool], classify: Classify) -> "bool | None":
+    """Boolean value of an expression under an assignment of classified atoms (bool() wrappers stripped)."""
+    e = _strip_bool(e)
+    if isinstance(e, ast.BoolOp):
+        vals = [eval_bool_expr(v, assignment, classify) for v in e.values]
+        if isinstance(e.op, ast.And):
+            if any(v is False for v in vals):
+                return False
+            return True if all(v is True for v in vals) else None
+        if any(v is True for v in vals):
+            return True
+        return False if all(v is False for v in vals) else None
+    if isinstance(e, ast.UnaryOp) and isinstance(e.op, ast.Not):
+        v = eval_bool_expr(e.operand, assignment, classify)
+        return None if v is None else not v
+    if isinstance(e, ast.Constant) and isinstance(e.value, bool):
+        return e.value
+    return _eval_bool(e, assignment, classify)
+
+
+def return_table(cfg: CFG, variables: list[str], classify: Classify) -> dict[tuple[bool, ...], "bool | None | str"]:
+    """assignment -> the boolean the function returns (None = not determined by the atoms,
+    'mixed' = different values on different paths)."""
+    out: dict[tuple[bool, ...], bool | None | str] = {}
+    for vals in itertools.product([False, True], repeat=len(variables)):
+        asg = dict(zip(variables, vals))
+        reach = walk(cfg, asg, classify)
+        results = set()
+        for n in reach:
+            if isinstance(n.ast, ast.Return):
+                results.add(eval_bool_expr(n.ast.value, asg, classify) if n.ast.value is not None else False)
+        if cfg.exit in reach and not results:
+            results.add(False)
+        out[vals] = results.pop() if len(results) == 1 else ("mixed" if results else None)
+    return out
+
+
+def lambda_table(lam: ast.Lambda, variables: list[str], classify: Classify) -> dict[tuple[bool, ...], "bool | None"]:
+    out = {}
+    for vals in itertools.product([False, True], repeat=len(variables)):
+        out[vals] = eval_bool_expr(lam.body, dict(zip(variables, vals)), classify)
+    return out
